@@ -26,7 +26,7 @@ What was built, and why it deviates from "one fork + os._exit(137) per step":
     EVERYTHING back -- six tables, every key and value, both directories; an exception is the
     violation store_unreadable -- and is then judged by the catalogue / model / store oracles.
   * calibrate_real_kill: the equivalence "image before step k == what a real kill before step k
-    leaves" is itself tested in one run of four: a forked victim runs one update on a copy under the
+    leaves" is itself tested in batches of their own (real-kill-calibration*): a forked victim runs one update on a copy under the
     boring chooser, takes the image before step k and then REALLY dies -- os._exit(137) for a
     pipeline-side step; for a worker-side step only the client dies (thread never released again, no
     finally block runs, sockets reset), the pipeline sees the lost connection and is then ended with
@@ -448,6 +448,9 @@ def enumerate_updates(w):
             w.imager = None
         w.check_stop()
         w.check_all('after-enumerated-phase')
+        w.check_stop()
+    for _ in range(cfg['calibrate']):
+        calibrate_real_kill(w)
         w.check_stop()
     if w.ch.flip('cal.real_kill', *cfg['real_kill']):
         calibrate_real_kill(w)
